@@ -1269,10 +1269,16 @@ def _parse_header(line: str) -> tuple[str, dict[str, str]]:
     decoded_params.pop(0)  # get rid of the dummy again
     pdict = {}
     for name, decoded_value in decoded_params:
-        value = email.utils.collapse_rfc2231_value(decoded_value)
-        if len(value) >= 2 and value[0] == '"' and value[-1] == '"':
-            value = value[1:-1]
-        pdict[name] = value
+        if isinstance(decoded_value, tuple):
+            # RFC 2231 extended value: decode_params has re-quoted it and
+            # collapse_rfc2231_value does not undo that after decoding the
+            # charset, so remove the quoting (and its escapes) first.
+            charset, language, text = decoded_value
+            decoded_value = (charset, language, email.utils.unquote(text))
+        # For a plain value collapse_rfc2231_value removes the quoting added
+        # by decode_params, exactly once: a value that itself starts and ends
+        # with a double quote (sent as "\"x\"") keeps those quotes.
+        pdict[name] = email.utils.collapse_rfc2231_value(decoded_value)
     return key, pdict
 
 
